@@ -18,6 +18,12 @@ ValidSeqs(p) ==
   ELSE {<<>>} \cup {<<t>> : t \in V1(r.s, lh, on)}
        \cup (IF MaxTxPerBlock < 2 THEN {}
              ELSE UNION {{<<t, u>> : u \in V1(Apply(r.s, t), lh, on \cup {t})} : t \in V1(r.s, lh, on)})
+(* blocks with two transactions that are each valid on the parent's chain but consume the same output or supersede the
+   same key version (the block-level double spend the state machine must refuse, by Play and by Walk) *)
+Clash(t, u) == t # u /\ (TX[t].ins \cap TX[u].ins # {} \/ \E k \in Keys : Supersedes(t, k) /\ Supersedes(u, k) /\ TX[t].reads[k] = TX[u].reads[k])
+ClashSeqs(p) == LET r == Replay(p) on == {t \in Txs : OnChain(t, p)} IN
+                IF ~r.ok \/ MaxTxPerBlock < 2 THEN {}
+                ELSE LET S == V1(r.s, Height(p) + 1, on) IN UNION {{<<t, u>> : u \in {x \in S : Clash(t, x)}} : t \in S}
 GenNext ==
   /\ Len(hist) < MaxOps
   /\ \/ \E t \in {t \in Txs : t \notin pool /\ Valid(St, t, LHeight)} : Submit(t, "*")
@@ -25,6 +31,7 @@ GenNext ==
         \E t \in RandomSubset(IF Cardinality(S) < 2 THEN Cardinality(S) ELSE 2, S) : Submit(t, "*")
      \/ \E p \in 1..n : \E seq \in RandomSubset(3, ValidSeqs(p)) : n < MaxBlocks /\ NewBlock(p, seq)
      \/ \E p \in RandomSubset(1, 1..n) : \E seq \in RandomSubset(1, {q \in TxSeqs : q # <<>>}) : MkBadBlock(p, seq)
+     \/ \E p \in RandomSubset(1, 1..n) : \E seq \in RandomSubset(1, ClashSeqs(p)) : MkBadBlock(p, seq)
      \/ \E b \in {c \in 2..n : Parent(c) = ptr} : Play(b, "*")
      \/ \E b \in RandomSubset(1, 2..n) : Play(b, "*")
      \/ (pool # {} /\ Mine(PrefixFits(GoodOrder(Packable))))
